@@ -263,19 +263,19 @@ PROPS = {
                 note="One-directional, as the statement is: trigger present => flag set. Untouched messages are counted as controls, never raised. 'Unparseable Content-Length' means no usable number (empty, non-numeric, overflow); libhtp's lenient acceptance of junk around digits is not litigated.",
                 technique="deterministic simulation: seeded actors apply triggers, wire schedules vary segmentation; spec-level predicate => flag on the reported transaction",
                 design_ref="DESIGN.md section 7 C11",
-                rule="19 triggers (TE+CL both orders, two CL same/different, folded CL, chunked on HTTP/1.0, CL empty/non-numeric/overflow, unsupported TE, target host/port differs from Host, Host missing on 1.1, invalid Host header (bad char, empty label, bad port, unclosed IPv6), invalid target host/port) x random header order/casing/OWS among 0-70 other headers x 1-3 exchanges x all segmentation strategies. Non-trivial/distinct as for C01."),
+                rule="21 triggers (empty / blank Host value alone and with an absolute target, TE+CL both orders, two CL same/different, folded CL, chunked on HTTP/1.0, CL empty/non-numeric/overflow, unsupported TE, target host/port differs from Host, Host missing on 1.1, invalid Host header (bad char, empty label, bad port, unclosed IPv6), invalid target host/port) x random header order/casing/OWS among 0-70 other headers x 1-3 exchanges x all segmentation strategies. Non-trivial/distinct as for C01."),
     "C16": dict(reach=['probe.req.connect.suspend', 'probe.tx.yield_data_other', 'c16.tunnel_expected', 'c16.http_resumes', 'rc.req.4', 'rc.res.4', 'data_other.req', 'data_other.res'], flavor="san", level="exploration",
                 claim="Seeded search over CONNECT / upgrade exchanges x response status x what follows x legal interleavings x segmentations; checks suspension of the request side, tunnel mode (TUNNEL for every later call, no callbacks, no new transactions) and exact resumption of HTTP parsing after a refusal or when the tunnel carries plain HTTP.",
                 note="Tunnel payload is modelled as client-speaks-first (the server's tunnel bytes are offered after the client's); TLS-looking payload contains a NUL early, as real handshakes do.",
                 technique="deterministic simulation: two actors around a CONNECT/upgrade, seeded interleaving of the two directions incl. request bytes beyond the CONNECT head before/after the response; history checks on return codes, consumed counts, callbacks and transactions",
                 design_ref="DESIGN.md section 7 C16",
-                rule="0-2 ordinary exchanges, then CONNECT (or GET+Upgrade) with status 200/204/299/101/407/403/502/400/500/302, followed by plain HTTP exchanges, TLS-looking bytes or nothing; request bias 20-100 % (100 = all request bytes first, i.e. beyond the CONNECT head in the same or next chunk); all segmentation strategies. Non-trivial/distinct as for C01."),
+                rule="0-2 ordinary exchanges, then CONNECT (or GET+Upgrade) with status 200/204/299/101/407/403/502/400/500/302, followed by plain HTTP exchanges, TLS-looking bytes or nothing; in a third of the upgrade runs the RESPONSE_HEADERS callback of the 101 answer returns STOP/ERROR (the request direction must still end in tunnel mode); request bias 20-100 % (100 = all request bytes first, i.e. beyond the CONNECT head in the same or next chunk); all segmentation strategies. Non-trivial/distinct as for C01."),
     "C07": dict(reach=['probe.decomp.flush_full', 'probe.decomp.restart', 'probe.decomp.passthrough', 'c07.bomb_runs', 'known_hit.decomp.restart.prior_input'], flavor="san", level="exploration",
                 claim="Fidelity: payloads encoded by the actors (zlib gzip/raw/zlib-wrapped, liblzma LZMA-alone, two-layer lists, mislabelled and plain bodies) are delivered through every segmentation of the compressed stream and compared with the original payload, under a simulated well-behaved clock. Bound: in every run (incl. the chaos mix with small bomb limits, corrupted streams and clock faults) delivered bytes per message stay within max(limit, 2048 x compressed) + one output buffer and the decompressor chain within the layer limit.",
                 note="Encoders (zlib deflate, liblzma) are trusted actor code; lzma is not mixed into multi-codec lists (libhtp decodes in listed order, the RFC lists in applied order; gzip/deflate mixes are rescued by libhtp's restart logic). The gettimeofday seam advances 1 us per read.",
                 technique="deterministic simulation: seeded chunkings of the compressed stream under a simulated clock; conservation oracle against the actor's payload + online bound invariant",
                 design_ref="DESIGN.md section 7 C07",
-                rule="9 payload kinds (empty, 1 B, text, random, 8191/8192/8193/16384, 20-70 KB low entropy, up to 200 KB highly compressible, 9-30 KB incompressible) x 11 codings x {CL, chunked, close} x {single-cut sweep over the first/last 40 bytes of the compressed body, 1-5 byte chunks, tiny first chunks then large, all general strategies}; every 4th run is a chaos plan (captures incl. compressed ones, mutations, small bomb limits, clock faults) with only the bound invariants. Non-trivial/distinct as for C01."),
+                rule="9 payload kinds (empty, 1 B, text, random, 8191/8192/8193/16384, 20-70 KB low entropy, up to 200 KB highly compressible, 9-30 KB incompressible) x 11 codings x {CL, chunked, close} x {single-cut sweep over the first/last 40 bytes of the compressed body, 1-5 byte chunks, tiny first chunks then large, all general strategies}; a quarter of the single-coding runs put the coded body on the request (request decompression on); a fifth use a small bomb limit (fidelity is then demanded only for payloads within max(limit, 2048 x compressed)); a third shrink the decompressors' output buffer to 16...8191 bytes through the guarded knob; every 8th run stacks up to 5 codings against the layer limits; every 4th run is a chaos plan (captures incl. compressed ones, mutations, codings on both sides, small bomb limits, clock faults) with only the bound invariants. Non-trivial/distinct as for C01."),
     "C14": dict(flavor="san", level="exploration",
                 claim="Ground truth + differential: multipart bodies wrapped by the actor around parts it chose are parsed through the public streaming API under EVERY single cut (bodies <= 1 KiB; 64 sampled cuts above) plus a seeded multi-cut schedule, and through the connection parser under random wire schedules; parts, file bytes, flags and parameters must equal the encoded parts and be identical for every chunking.",
                 note="Boundary delimiters never occur inside generated part content (near-misses do); with LF-only line ends CR is not generated inside content. Simulated file layer for extracted files (no faults in this scenario).",
@@ -315,17 +315,17 @@ PROPS = {
                 claim="Runtime monitor automaton evaluated inside every callback of every simulated run of the chaos scenario (all inputs, interleavings, closes, gaps, callback behaviours).",
                 note="Raw header/trailer data receivers and the end-of-body marker are not ranked (not in the statement's callback list); three lenient-parsing call sites are listed as known findings and attributed by guarded probe.",
                 technique="deterministic simulation with fault injection; per-transaction lifecycle automaton as an online invariant",
-                design_ref="DESIGN.md section 7 C05", rule="chaos plans as for C01; oracle is the per-transaction lifecycle automaton evaluated inside every callback (order, monotone progress with the interim-100 back-edge, at-most-once completions, silence after TRANSACTION_COMPLETE)."),
+                design_ref="DESIGN.md section 7 C05", rule="chaos plans as for C01; oracle is the per-transaction lifecycle automaton evaluated inside every callback (order, monotone progress with the interim-100 back-edge, at-most-once completions, silence after TRANSACTION_COMPLETE) plus one end-of-run clause: a transaction whose two completion callbacks were delivered has had TRANSACTION_COMPLETE by the time the parser is destroyed (bounded liveness; runs in which a scripted callback returned STOP/ERROR are exempt)."),
     "C09": dict(reach=['rc.req.5', 'rc.res.5', 'rc.req.3', 'rc.res.3', 'rc.req.6', 'rc.res.6', 'rc.req.4', 'rc.res.4', 'rc.req.2', 'rc.res.2', 'sticky_followups.req', 'sticky_followups.res', 'handover_retries'], flavor="san", level="exploration",
                 claim="Per-call contract checked after every API call of every simulated run, plus bounded progress of the stub that follows the documented hand-over protocol.",
                 note="Byte counters are compared with bytes offered to a live stream (calls short-circuited by the STOP/ERROR/zero-length entry guards are not counted by libhtp and not by the oracle).",
                 technique="deterministic simulation with fault injection; API-contract invariants after every call and bounded-liveness check of the DATA_OTHER hand-over",
-                design_ref="DESIGN.md section 7 C09", rule="chaos plans as for C01; oracle evaluated after every data call: documented return code, DATA => whole chunk consumed, DATA_OTHER => strictly less, byte counters == bytes offered, sticky ERROR/STOP with no callbacks, bounded hand-over (no endless DATA_OTHER ping-pong)."),
+                design_ref="DESIGN.md section 7 C09", rule="chaos plans as for C01; oracle evaluated after every data call: documented return code, DATA => whole chunk consumed, DATA_OTHER => strictly less, byte counters == bytes offered, sticky ERROR/STOP with no callbacks, bounded hand-over (no endless DATA_OTHER ping-pong), and a STOP/ERROR returned by a start/line/headers/trailer/response-complete callback is reported by that very call; CONNECT/upgrade connections of all three kinds with the tunnel payload sent and callback failures placed inside the mode switch."),
     "C10": dict(reach=['probe.req.buf.limit', 'probe.res.buf.limit', 'probe.tx.max_tx', 'probe.req.hdr.repeat_cap', 'probe.res.hdr.repeat_cap', 'probe.req.hdr.fold_cap', 'probe.res.hdr.fold_cap', 'c10.steady_runs'], flavor="san", level="exploration",
                 claim="Retention invariants checked after every API call over seeded runs with small limits; steady-state heap flatness over long streaming connections measured with the allocation seam.",
                 note="Private parser fields (in_buf_size, out_buf_size, in_header, out_header, transaction list) are read through the private headers.",
                 technique="deterministic simulation with fault injection; retention invariants after every call, allocation-seam accounting for steady state",
-                design_ref="DESIGN.md section 7 C10", rule="chaos plans biased to small field limits and max_tx; invariants after every call: retained line bytes <= hard limit, pending folded header below cap, transaction list <= max_tx+1."),
+                design_ref="DESIGN.md section 7 C10", rule="chaos plans biased to small field limits and max_tx; invariants after every call: retained line bytes <= hard limit, pending folded header below cap, transaction list <= max_tx+1; every 8th run a limit exerciser (traffic shaped to hit each cap, incl. a buffered continuation after an over-limit pending header); every 16th run a steady-state connection of 300-10000 periodic transactions with auto-destroy, logging off, disposal and slot recycling after every call, delivered in groups or (a third) with a sliding window in which neither direction is ever idle: live heap must not grow with the transaction index (group mode: no sample above the warm-up maximum + 4 KiB; sliding mode: late median <= early median + 4 KiB) and the transaction list stays short."),
 }
 
 ASSUMPTIONS = [
